@@ -594,10 +594,21 @@ KERNEL_GROUPS['KernelsNames'] = [
     ('meta_table.py', 'get_sge_oligo_name', 'k_sge_oligo_name', None),
     ('meta_table.py', 'get_cdna_oligo_name', 'k_cdna_oligo_name', None),
 ]
-KERNEL_EXTRA_SOURCES = {'KernelsMave': ['enums.py'], 'KernelsNames': ['enums.py', 'constants.py']}
+KERNEL_GROUPS['KernelsLift'] = [
+    # the range / variant-statistics predicates the liftover (clamp_var_stats_collection) and the codon clamping (Exon.get_codon, Seq.get_rel_range) rest on
+    ('utils.py', 'clamp_non_negative', 'kl_clamp_non_negative', None),
+    ('utils.py', 'get_end', 'kl_get_end', None),
+    ('var_stats.py', 'VarStats.alt_ref_delta', 'k_vs_alt_ref_delta', 'vstat'),
+    ('var_stats.py', 'VarStats.ref_end', 'k_vs_ref_end', 'vstat'),
+    ('var_stats.py', 'VarStats.is_in_range', 'k_vs_is_in_range', 'vstat'),
+    ('uint_range.py', 'UIntRange.overlaps', 'k_range_overlaps', 'range'),
+    ('uint_range.py', 'UIntRange.intersect', 'k_range_intersect', 'range'),
+    ('uint_range.py', 'UIntRange.offset', 'k_range_offset', 'range'),
+]
+KERNEL_EXTRA_SOURCES = {'KernelsMave': ['enums.py'], 'KernelsNames': ['enums.py', 'constants.py'], 'KernelsLift': ['enums.py']}
 KERNEL_CONSTS = {'KernelsNames': ('REVCOMP_OLIGO_NAME_SUFFIX',)}
 KERNEL_IMPORTS = {'KernelsTargeton': ' Model.Targeton', 'KernelsMave': ' Model.Seq Model.Vcf Model.Mave Model.PyStr',
-                  'KernelsNames': ' Model.Seq Model.Vcf Model.Mave Model.PyStr'}
+                  'KernelsNames': ' Model.Seq Model.Vcf Model.Mave Model.PyStr', 'KernelsLift': ' Model.Seq Model.Vcf Model.Gpo'}
 
 
 def _kernel_extractor(name):
